@@ -478,8 +478,15 @@ class SimplicialComplex(Hypergraph):
         if isinstance(ebunch_to_add, dict):
             faces = []  # container to store subfaces
             for idx, members in ebunch_to_add.items():
+                try:
+                    # repeated nodes neither count towards the size nor
+                    # create degenerate subfaces
+                    unique = list(dict.fromkeys(members))
+                except TypeError as e:
+                    raise XGIError("Invalid ebunch format") from e
+
                 # check that it does not exist yet (based on members, not ID)
-                if not members or self.has_simplex(members):
+                if not unique or self.has_simplex(unique):
                     continue
 
                 if idx in self._edge.keys():  # check that uid is not present yet
@@ -487,9 +494,9 @@ class SimplicialComplex(Hypergraph):
                     continue
 
                 if max_order is not None:
-                    if len(members) > max_order + 1:
+                    if len(unique) > max_order + 1:
                         combos = powerset(
-                            members, include_singletons=False, max_size=max_order + 1
+                            unique, include_singletons=False, max_size=max_order + 1
                         )
                         faces += list(combos)
 
@@ -505,7 +512,7 @@ class SimplicialComplex(Hypergraph):
                 update_uid_counter(self, idx)
 
                 # store subfaces
-                faces += self._subfaces(members)
+                faces += self._subfaces(unique)
 
             # add subfaces
             faces = set(faces)  # get unique subfaces
@@ -564,12 +571,14 @@ class SimplicialComplex(Hypergraph):
             # check if members is iterable before checking it exists
             # to raise meaningful error if not iterable
             try:
-                _ = iter(members)
+                # repeated nodes neither count towards the size nor
+                # create degenerate subfaces
+                unique = list(dict.fromkeys(members))
             except TypeError as e:
                 raise XGIError("Invalid ebunch format") from e
 
             # check that it does not exist yet (based on members, not ID)
-            if not members or self.has_simplex(members):
+            if not unique or self.has_simplex(unique):
                 try:
                     e = next(new_edges)
                 except StopIteration:
@@ -583,9 +592,9 @@ class SimplicialComplex(Hypergraph):
                 idx = next(self._edge_uid)
 
             if max_order is not None:
-                if len(members) > max_order + 1:
+                if len(unique) > max_order + 1:
                     combos = powerset(
-                        members, include_singletons=False, max_size=max_order + 1
+                        unique, include_singletons=False, max_size=max_order + 1
                     )
                     faces += list(combos)  # store faces
 
@@ -627,7 +636,7 @@ class SimplicialComplex(Hypergraph):
             update_uid_counter(self, idx)
 
             # store subfaces
-            faces += self._subfaces(members)
+            faces += self._subfaces(unique)
 
             try:
                 e = next(new_edges)
